@@ -270,7 +270,32 @@ def run_monitor(pid, ctx, blocks, trace):
         sc = Scenario(text)
         if f:
             f(ctx, k, sc, tr, stats)
+    if pid == "C12":
+        finalize_C12(ctx, stats)
+    stats.pop("_testers", None)
+    stats.pop("_decisions", None)
     return stats
+
+
+def finalize_C12(ctx, stats):
+    """Validation of the modelled part only (never a theorem): the establishment
+    testers behave like uniform variates on [0,1) and the frequency of
+    establishment matches the probability, with margins far beyond sampling noise."""
+    xs = sorted(stats.get("_testers", []))
+    n = len(xs)
+    stats["uniformity_sample"] = n
+    if n >= 1500:
+        d = max(max((i + 1) / n - x, x - i / n) for i, x in enumerate(xs))
+        stats["ks_distance_testers_vs_uniform"] = round(d, 4)
+        if d > 3.0 / n ** 0.5:
+            ctx.violation("C12.establish.tester_not_uniform", "Kolmogorov-Smirnov distance %.4f of %d establishment testers from the uniform law" % (d, n), None)
+        dec = stats.get("_decisions", [])
+        exp = sum(p for p, _ in dec)
+        got = sum(1 for _, r in dec if r)
+        var = sum(p * (1 - p) for p, _ in dec)
+        stats["established_expected_vs_observed"] = [round(exp, 1), got]
+        if abs(got - exp) > 6 * max(var, 1.0) ** 0.5:
+            ctx.violation("C12.establish.frequency", "%d of %d dispersers established, expected %.1f (6 sigma = %.1f)" % (got, len(dec), exp, 6 * var ** 0.5), None)
 
 
 # ================================================================== helpers
@@ -517,6 +542,9 @@ def mon_C12(ctx, k, sc, tr, stats):
                 _, t, p, r = ev.split(":")
                 tq, pq = parse_q(t), parse_q(p)
                 stats["establish_events"] = stats.get("establish_events", 0) + 1
+                if not det:
+                    stats.setdefault("_testers", []).append(float(tq))
+                    stats.setdefault("_decisions", []).append((float(pq), r == "1"))
                 if (tq < pq) != (r == "1"):
                     ctx.violation("C12.establish.decision", "tester %s probability %s result %s" % (t, p, r), sc.text)
                     return
